@@ -226,6 +226,7 @@ def parse_strace(path, need):
             fs = files.get(need[m], {})
             h = fs.get("wal")
             out[m] = {"size": h[0], "synced": h[1]} if h else {"size": 0, "synced": 0}
+            out[m]["files"] = {n: (v[0], v[0] - v[1]) for n, v in fs.items() if n != "wal"}
 
     def handle(call, ret):
         name, _, args = call.partition("(")
@@ -313,6 +314,9 @@ def merge_fs(rows, fsobs):
             p["fsynced"] = p["hsynced"]
             if fsobs is not None:
                 miss += 1
+        for f in p["files"]:      # rotated files: bytes written and never fsync'ed (a rename does not sync)
+            t = (o or {}).get("files", {}).get("wal.%03d" % f["idx"])
+            f["usz"] = t[1] if t is not None and t[0] == f["size"] else 0
         if r.get("ev") == "Reopen":
             o2 = fsobs.get(r.get("m")) if fsobs is not None else None
             # state when OnStart returned = end of the sub-event that started at marker m
